@@ -71,16 +71,24 @@ if P and P.get('kind') == 'hist':
     SHARED = make()
     FRESH = make()
     LALR = CFG.startswith('lalr') or INDENT
-    NOPS = 8
+    NOPS = 9
     PIN = P.get('pin')
     MAXOPS = P.get('maxops', 3)
     NPROBES = P.get('nprobes', len(PROBES))
 
-    def _outcome(lk, text):
+    def _lexed(lk, text):
         try:
-            return hs.outcome(lk.parse, text)
+            return ('tokens', tuple((t.type, str(t), t.start_pos, t.line, t.column) for t in lk.lex(text)))
+        except (UnexpectedInput, DedentError) as e:
+            return ('error', type(e).__name__, getattr(e, 'pos_in_stream', None))
+
+    def _outcome(lk, text):
+        # the probe observes parse() and lex() of the same text
+        try:
+            a = hs.outcome(lk.parse, text)
         except DedentError as e:
-            return ('error', 'DedentError', str(e))
+            a = ('error', 'DedentError', str(e))
+        return (a, _lexed(lk, text))
     REF = {}
 
 
@@ -126,6 +134,8 @@ def _do_op(lk, op):
                 Reconstructor(lk).reconstruct(lk.parse(good))
             else:
                 lk.parse(bad)
+        elif op == 8:
+            list(lk.lex(good, dont_ignore=True))
     except (UnexpectedInput, DedentError, StopIteration):
         pass
 
@@ -178,8 +188,10 @@ if P and P.get('kind') == 'sched':
                                                            'visit_symbol_node_in', 'visit_packed_node_in', 'visit_packed_node_out', 'visit_symbol_node_out',
                                                            'visit_token_node', '_visit_node_out_helper', '_call_rule_func', '_collapse_ambig', 'on_cycle')}
         TRACED_FUNCS |= {('earley.py', 'parse'), ('parse_tree_builder.py', '__call__')}
+    TRACE_ALL = P.get('traceset') == 'all'      # every line of every lark function is a preemption point
     GAPS = P.get('gaps', [12, 12])
     PIN1 = P.get('pin1')
+    PART = P.get('part')                        # [i, n]: the first switch position is congruent to i modulo n (strided partition of a wide window)
 
     def _cb(t):
         return t.update(value=t.value.upper())
@@ -193,6 +205,10 @@ if P and P.get('kind') == 'sched':
             return Lark(G_PLAIN, parser='earley', lexer='dynamic')
         if SCFG == 'earley-explicit':
             return Lark(G_PLAIN, parser='earley', lexer='dynamic', ambiguity='explicit')
+        if SCFG == 'earley-complete':
+            return Lark(G_PLAIN, parser='earley', lexer='dynamic_complete')
+        if SCFG == 'cyk':
+            return Lark(G_PLAIN, parser='cyk')
         return Lark(G_PLAIN, parser='earley', lexer='basic', lexer_callbacks={'NAME': _cb})
     CALLS = [('parse', 'x = 7 ;'), ('parse', 'if a : b = c + 2 ;'), ('lex', 'x = y ;')]
 
@@ -234,7 +250,7 @@ class _Stepper:
             co = frame.f_code
             fn = co.co_filename
             key = (fn[fn.rfind('/') + 1:], co.co_name)
-            if key in TRACED_FUNCS and '/lark/' in fn:
+            if '/lark/' in fn and (TRACE_ALL or key in TRACED_FUNCS):
                 return local
             return None
         return glob
@@ -291,7 +307,10 @@ def _sched_body(rec, sw, ca, cb):
     pos = []
     last = 0
     for i in range(k):
-        d = 1 + hs.sel(sw[i], GAPS[i])
+        if i == 0 and PART is not None:
+            d = 1 + PART[0] + PART[1] * hs.sel(sw[i], (GAPS[i] - PART[0] + PART[1] - 1) // PART[1])
+        else:
+            d = 1 + hs.sel(sw[i], GAPS[i])
         last += d
         pos.append(last)
     if PAIR is not None:
@@ -332,10 +351,10 @@ def plan(tier, seed):
     quick = tier == 'quick'
     slices = []
     for cfg in ('lalr-ctx-callbacks', 'lalr-basic', 'earley-dynamic', 'earley-basic', 'indent-ctx', 'indent-basic'):
-        for pin in range(8):
+        for pin in range(9):
             slices.append({'id': 'hist:%s:ops<=%d:first%d' % (cfg, 3 if quick else 4, pin), 'func': 'hist',
-                           'params': {'kind': 'hist', 'cfg': cfg, 'pin': pin, 'maxops': 3 if quick else 4, 'nprobes': 10}, 'mode': 'realised', 'timeout': 400 if quick else 3000,
-                           'twin': pin == 7 and cfg == 'lalr-basic', 'bound': {'ops': 3 if quick else 4, 'op_kinds': 8, 'probes': 10}})
+                           'params': {'kind': 'hist', 'cfg': cfg, 'pin': pin, 'maxops': 3 if quick else 4, 'nprobes': 6 if quick else 10}, 'mode': 'realised', 'timeout': 400 if quick else 3000,
+                           'twin': pin == 8 and cfg == 'lalr-basic', 'bound': {'ops': 3 if quick else 4, 'op_kinds': 9, 'probes': 6 if quick else 10}})
     # schedules: (configuration, pair of first calls, gap windows between consecutive context switches, in line steps)
     plans = [('earley-dynamic', [0, 1], [60], 'forest'), ('earley-callbacks', [1, 0], [60, 20], 'forest'), ('earley-explicit', [0, 1], [60], 'forest'),
              ('basic-callbacks', [0, 1], [8, 40, 3]), ('basic-callbacks', [0, 2], [8, 40, 3]), ('basic-callbacks', [0, 1], [24, 24]),
@@ -343,6 +362,17 @@ def plan(tier, seed):
     if not quick:
         plans += [('basic-callbacks', [0, 1], [12, 45, 12]), ('basic-callbacks', [2, 2], [12, 45, 12]), ('ctx-callbacks', [0, 1], [12, 45, 12]),
                   ('earley-callbacks', [0, 2], [12, 45, 12]), ('basic-callbacks', [0, 1], [6, 30, 4, 6])]
+    # one context switch anywhere: every line of every lark function is a preemption point (the other call then runs to completion)
+    wide = [('earley-dynamic', [0, 1], 3600), ('ctx-callbacks', [1, 0], 1800)]
+    if not quick:
+        wide += [('earley-dynamic', [1, 0], 6600), ('earley-complete', [0, 1], 3600), ('earley-explicit', [1, 0], 6600), ('earley-callbacks', [0, 1], 3800), ('basic-callbacks', [0, 1], 1000),
+                 ('basic-callbacks', [2, 1], 1200), ('ctx-callbacks', [0, 2], 1100), ('cyk', [0, 1], 1500)]
+    for cfg, pair, window in wide:
+        nparts = 8 if quick else 16
+        for i in range(nparts):
+            slices.append({'id': 'sched:%s:all-lines:calls%s:window%d:part%d/%d' % (cfg, pair, window, i, nparts), 'func': 'sched', 'mode': 'realised',
+                           'params': {'kind': 'sched', 'cfg': cfg, 'pair': pair, 'gaps': [window], 'part': [i, nparts], 'traceset': 'all'}, 'timeout': 600 if quick else 3000,
+                           'twin': i == 0, 'bound': {'context_switches': 1, 'threads': 2, 'granularity': 'line steps of all lark functions', 'window': window}})
     for pl in plans:
         cfg, pair, gaps = pl[:3]
         traceset = pl[3] if len(pl) > 3 else 'lexer'
